@@ -26,7 +26,7 @@ def _judge(prop, fam, assertions, opts, script, r, res, named=None):
         cov['oracle_queries'] += 1
         if m is None: return
         # certified model of an assertion set answered unsat
-        if S.confirm(script, (), lambda x: S.blocks(x.out)[:1] == ['unsat']):
+        if S.confirm(script, (), lambda x: S.blocks(x.out)[:1] == ['unsat'], cls=('wrong_unsat', fam.name, tuple(opts))):
             rec = dict(S.features(fam, opts, assertions), symptom='wrong_unsat', what='unsat answered for a set with a certified model')
             res['violations'].append((rec, script, 'smt2'))
         else:
@@ -47,7 +47,7 @@ def _judge(prop, fam, assertions, opts, script, r, res, named=None):
             if not fam.models: return
             res['distinct'].append(akey)
             if not has_model: reason = 'no model printed after sat: %s' % (b[1] if len(b) > 1 else '(nothing)')
-            if S.confirm(script, (), lambda x: _c03_bad(fam, assertions, x)):
+            if S.confirm(script, (), lambda x: _c03_bad(fam, assertions, x), cls=('bad_model', fam.name, tuple(opts))):
                 rec = dict(S.features(fam, opts, assertions), symptom='bad_model', what=reason[:200])
                 res['violations'].append((rec, script, 'smt2'))
             else:
@@ -57,7 +57,7 @@ def _judge(prop, fam, assertions, opts, script, r, res, named=None):
         res['distinct'].append(akey)
         cov['oracle_queries'] += 1
         if refs.is_unsat(fam.logic, fam.decls, assertions, fam.defs):
-            if S.confirm(script, (), lambda x: S.blocks(x.out)[:1] == ['sat']):
+            if S.confirm(script, (), lambda x: S.blocks(x.out)[:1] == ['sat'], cls=('wrong_sat', fam.name, tuple(opts))):
                 rec = dict(S.features(fam, opts, assertions), symptom='wrong_sat', what='sat answered for a set that z3 and cvc5 refute' + ('; own model: ' + reason[:120] if reason else ''))
                 res['violations'].append((rec, script, 'smt2'))
             else:
